@@ -21,6 +21,7 @@ import (
 	"strings"
 	"time"
 
+	"verifsim/callsim"
 	"verifsim/evid"
 )
 
@@ -123,6 +124,8 @@ func main() {
 			res["what"] = v.What
 		}
 		json.NewEncoder(os.Stdout).Encode(res)
+	case "corpus":
+		callsim.CorpusStats(*repo, 12)
 	case "replay":
 		os.Exit(replay(*file, cfg))
 	case "run":
